@@ -127,3 +127,17 @@ def stats(case, obs, dist):
     dist['cls_' + case['cls']] = dist.get('cls_' + case['cls'], 0) + 1
     if _has_parallel(case):
         dist['cases_with_parallel_states'] = dist.get('cases_with_parallel_states', 0) + 1
+
+
+def extra_checks(tier, seed):
+    """the asynchronous hierarchical classes with callbacks that really suspend: the COMPLETION order of exit /
+    enter / on_final callbacks must be the synchronous model's order (children exited before parents, parents
+    entered before children, nothing of a later state before an earlier state's callback completed)"""
+    n = 250 if tier == 'quick' else 8000
+    cases, bad = hsm.async_stream('C02a', seed, n, p_parallel=0.35)
+    detail = dict(cases=len(cases), disagreements=len(bad))
+    if bad:
+        c, m, i = bad[0]
+        return [('async_suspending_callbacks', False, detail,
+                 dict(kind='counterexample', stream='HierarchicalAsyncMachine with suspending callbacks', case=c, model_obs=m, impl_obs=i))]
+    return [('async_suspending_callbacks', True, detail, {})]
